@@ -357,6 +357,10 @@ def yearless_cases(rng, n):
             lines.append(head); tab[head] = (g.tm_mon, g.tm_mday, g.tm_hour, g.tm_min, g.tm_sec); true_t.append(t)
             for _ in range(rng.choice([0, 0, 1, 2])):
                 lines.append(b" " + U.body(rng, rng.choice([2, 7, 30, 70]), False) + b"\n")
+        if rng.random() < 0.35:
+            # undated lines lead the file: stage 3's find_sysline(0) searches and builds the first message again (its
+            # year survives through the parse_datetime / find_sysline LRU caches: yearless_driver_caches_off_refuted)
+            lines.insert(0, rng.choice([b"\n", b" x\n", b" " + U.body(rng, 6, False) + b"\n"]))
         mtime = t + rng.choice([5, 3600, 86400, 400 * 86400])
         kind = rng.choice(["plain", "plain", "gz", "bz2", "lz4"])
         a = None
@@ -377,7 +381,7 @@ def run_yearless_mode(ctx, rng, quick, scratch, cdir):
     if ans is None:
         ctx.obligation_broken("correspondence", "harness c02 year-less mode", tabs)
         return {}
-    ccases, n_ok, n_rej, fails, boundaries = [], 0, 0, 0, 0
+    ccases, n_ok, n_rej, fails, boundaries, n_lead = [], 0, 0, 0, 0, 0
     for (bs, f, tab, mt, kind, a), an in zip(cases, ans):
         x = an[0] if an else dict(kind="ERR", what="no answer")
         if x.get("kind") != "DY" or x.get("result") != "FileOk":
@@ -386,6 +390,7 @@ def run_yearless_mode(ctx, rng, quick, scratch, cdir):
         n_ok += 1
         year = time.gmtime(x["mtime"]).tm_year
         heads = [l for l in U.py_lines(f) if l in tab]
+        n_lead += 1 if U.py_lines(f)[0] not in tab else 0
         asg = U.py_assign_years([tab[l] for l in heads], year)
         boundaries += len(set(y for y, _ in asg)) - 1
         fill = x.get("filler", {})
@@ -422,6 +427,7 @@ def run_yearless_mode(ctx, rng, quick, scratch, cdir):
                               json.dumps(dict(file_hex=f.hex(), blocksz=bs, container=kind, op=oa[0][0][1], year=oa[0][0][3], code=c,
                                               impl=repr(oa[0][1]["items"])[:600], disagreements=len(dis))))
     return dict(yearless_files=len(cases), yearless_accepted=n_ok, yearless_rejected_by_gate=n_rej,
+                yearless_leading_undated_accepted=n_lead,
                 yearless_year_boundaries=boundaries, yearless_model_disagreements=len(dis), yearless_spec_failures=fails,
                 yearless_containers={k_: sum(1 for c_ in cases if c_[4] == k_) for k_ in ("plain", "gz", "bz2", "lz4")})
 
